@@ -49,7 +49,7 @@ func vnLowerEq(a, b []byte) bool {
 	return true
 }
 
-var vnParsePrefixes = []string{"--x:", "a{--x:", "a{b:", "a{b:c(", "@media ", "@media a{", "@font-face{", "a:not(", "a{*", "a[b", "@x ", "a{b:c;--y:[", "<!--", "a{@media{", "@supports(a:b){c{"}
+var vnParsePrefixes = []string{"--x:", "a{--x:", "a{b:", "a{b:c(", "@media ", "@media a{", "@font-face{", "a:not(", "a{*", "a[b", "@x ", "a{b:c;--y:[", "<!--", "a{@media{", "@supports(a:b){c{", "a{b:c d;", "b:c d;", "a{--x:1;"}
 
 const (
 	vnP01 = 1
@@ -99,6 +99,25 @@ func vnParseW(mode int) {
 				hadParseError = true
 				vReach("parse-error")
 				_ = p.Err()
+				if mode&vnP08 != 0 {
+					// the tokens an error unit reports through Values() are input tokens in source order too
+					for _, v := range vals {
+						off := vOffsetIn(v.Data, whole)
+						if off < 0 || len(v.Data) == 0 || v.TokenType == WhitespaceToken && len(v.Data) == 1 {
+							continue // synthetic tokens (single space, the closing brace of a block)
+						}
+						found := false
+						for k < len(T) {
+							t := T[k]
+							k++
+							if t.start == off && t.end == off+len(v.Data) && t.tt == v.TokenType {
+								found = true
+								break
+							}
+						}
+						vAssert(found, "error-unit-values-not-in-source-order")
+					}
+				}
 				continue
 			}
 			vAssert(p.Err() == io.EOF, "error-without-eof")
